@@ -119,6 +119,13 @@ func pushdownAllowed(opts *Opts, query *sql.Query) (bool, error) {
 				log.Debugf("Unexpected error checking if pushdown allowed: %v", err)
 				return false, err
 			}
+			if current.GroupByAll && parentGroupByAll && !groupsConfinedToPartitions(t) {
+				// The table keeps only some dimensions but is partitioned by
+				// dimensions it does not keep: rows of one group live on several
+				// partitions and have to be merged on the leader.
+				log.Debug("Pushdown not allowed because table groups can span partitions")
+				return false, nil
+			}
 			if current.GroupByAll && parentGroupByAll {
 				log.Debug("Pushdown allowed because we're grouping by all")
 			} else {
@@ -169,6 +176,32 @@ func pushdownAllowed(opts *Opts, query *sql.Query) (bool, error) {
 	}
 
 	return false, fmt.Errorf("Should never reach this branch of pushdownAllowed")
+}
+
+// groupsConfinedToPartitions tells whether every group of the table (at its own
+// grouping) is stored on a single partition: either the table groups by all
+// dimensions, or all of its partition keys are among its group by dimensions.
+func groupsConfinedToPartitions(t Table) bool {
+	groupBy := t.GetGroupBy()
+	if len(groupBy) == 0 {
+		// groups by all dimensions
+		return true
+	}
+	partitionBy := t.GetPartitionBy()
+	if len(partitionBy) == 0 {
+		// partitioned by all dimensions, including ones the table does not keep
+		return false
+	}
+	kept := make(map[string]bool, len(groupBy))
+	for _, gb := range groupBy {
+		kept[gb.Name] = true
+	}
+	for _, partitionKey := range partitionBy {
+		if !kept[partitionKey] {
+			return false
+		}
+	}
+	return true
 }
 
 func planClusterPushdown(opts *Opts, query *sql.Query) (core.FlatRowSource, error) {
